@@ -5,7 +5,7 @@
 set -u
 export GOFLAGS=-mod=mod GOPROXY=off GOSUMDB=off GOTOOLCHAIN=local GOWORK=off
 P="$1"; N="$2"
-SRC=/tmp/sa2/out/$P/$N
+SRC=${SA:-/tmp/sa2}/out/$P/$N; TAG=${TAG:-agent}
 [ -f "$SRC/patch.diff" ] || { echo "$P/$N: no patch"; exit 1; }
 WT=/tmp/refconfirm/$P-$N-$$
 mkdir -p /tmp/refconfirm
@@ -30,13 +30,13 @@ done
 echo "$P/$N: VERDICT modules=[$MODS] build_vet_test_race_exit=$R"
 if [ $R -eq 0 ]; then
   mkdir -p /verif/variants/$P
-  { echo "# expect: silent"; cat "$SRC/patch.diff"; } > /verif/variants/$P/agent-$N.diff
-  python3 - "$SRC/meta.json" /verif/variants/$P/agent-$N.meta.json "$MODS" <<'PY'
+  { echo "# expect: silent"; cat "$SRC/patch.diff"; } > /verif/variants/$P/$TAG-$N.diff
+  python3 - "$SRC/meta.json" /verif/variants/$P/$TAG-$N.meta.json "$MODS" <<'PY'
 import json,sys
 m=json.load(open(sys.argv[1]))
 out={"origin":"independent sub-agent (second round): behaviour-preserving refactor of the code implementing the property","summary":m.get("summary",""),"why_equivalent":m.get("why_equivalent",""),"files_changed":m.get("files_changed",[]),
  "confirmed_by_me":f"applies to /repo HEAD in a scratch worktree; go build, go vet, go test -count=1 -race pass in modules [{sys.argv[3]}]; equivalence argument reviewed by reading"}
 json.dump(out,open(sys.argv[2],"w"),indent=1,ensure_ascii=False)
 PY
-  echo "KEPT /verif/variants/$P/agent-$N.diff"
+  echo "KEPT /verif/variants/$P/$TAG-$N.diff"
 fi
